@@ -119,5 +119,5 @@ GNext ==
      /\ PrintT(<<"REPLAY", ToJson([script |-> script])>>)
      /\ FALSE /\ UNCHANGED gvars
 
-RS_gen == {[ok |-> TRUE, sub |-> 1], [ok |-> TRUE, sub |-> 2], [ok |-> FALSE, sub |-> -1], [ok |-> TRUE, sub |-> -1]}
+RS_gen == {[ok |-> TRUE, sub |-> 1], [ok |-> TRUE, sub |-> 2], [ok |-> TRUE, sub |-> 101], [ok |-> FALSE, sub |-> -1], [ok |-> TRUE, sub |-> -1]}
 =============================================================================
